@@ -728,7 +728,7 @@ theorem run_main (cx : Ctx) (ht : TableOk cx.table) :
         apply finishStep_ok
         · exact hf1
         · intro hrev hhalt fr3 g3 hg3 hs3
-          have hdec := phi_decreases cx fr g info fr1 args g1 cgt hp ha hrev hhalt
+          have hdec := phi_decreases cx fr _ info fr1 args g1 cgt hp ha hrev hhalt
           have := ih depth ro fr3 g3 (by rw [hg3]; simp only; omega)
           unfold RunOk at this ⊢
           rw [hg3, hs3] at this
@@ -738,7 +738,7 @@ theorem run_main (cx : Ctx) (ht : TableOk cx.table) :
       · -- nested call / create
         rename_i req deduct g2 hex
         have hi := execOp_invoke _ _ _ _ _ _ _ _ _ _ hex
-        obtain ⟨hd, hchild, hback, hpush, hpops⟩ := invoke_gas cx fr g info fr1 args g1 cgt req deduct hp ha hlt hi
+        obtain ⟨hd, hchild, hback, hpush, hpops⟩ := invoke_gas cx fr _ info fr1 args g1 cgt req deduct hp ha hlt hi
         simp only
         -- the callee returns at most what it was given (whatever the fuel)
         have hrunA : GoodRun (fun _ => True) (runLoop cx fuel) (reqGas req) := by
